@@ -123,6 +123,12 @@ def body_grid(case, rec):
     key = f"detector.{sec}.{f}"
     P.reset()
 
+    held = {}  # the long-lived detector of the attribute / key / sweep paths and what its section held before
+
+    def keep(det):
+        held["det"], held["before"] = det, {k: copy.deepcopy(x) for k, x in vars(getattr(det, sec)).items()}
+        return det
+
     def act():
         if path in ("ctor", "yaml"):
             s = copy.deepcopy(spec)
@@ -132,20 +138,20 @@ def body_grid(case, rec):
             else:
                 pyx.build({"detector": s, "pipeline": pipe_spec, "mode": {"kind": "exposure"}, "readout": {"times": [1.0]}}, render="yaml", tmp=rec.tmp)
         elif path == "setter":
-            det = build_detector(spec)
+            det = keep(build_detector(spec))
             setattr(getattr(det, sec), f, v)
             got = getattr(getattr(det, sec), f)
             if got != v:
                 raise AssertionError(f"setter stored {got!r} instead of {v!r}")
         elif path == "processor_set":
-            proc = Processor(detector=build_detector(spec), pipeline=build_pipeline(pipe_spec))
+            proc = Processor(detector=keep(build_detector(spec)), pipeline=build_pipeline(pipe_spec))
             proc.set(key, v)
             got = proc.get(key)
             if got != v:
                 raise AssertionError(f"Processor.set stored {got!r} instead of {v!r}")
         else:
             obs = Observation(parameters=[ParameterValues(key=key, values=[v])], readout=Readout(times=[1.0]))
-            pyxel.run_mode(mode=obs, detector=build_detector(spec), pipeline=build_pipeline(pipe_spec))
+            pyxel.run_mode(mode=obs, detector=keep(build_detector(spec)), pipeline=build_pipeline(pipe_spec))
 
     try:
         act()
@@ -161,6 +167,12 @@ def body_grid(case, rec):
         rec.check(raised is not None, f"out_of_range_value_accepted:{f}:{path}", f"{f}={v!r} ({case['cls']}) via {path} on {typ} was accepted")
         if path == "sweep" and raised is not None:
             rec.check(not P.TRACE, "model_ran_with_out_of_range_value", f"{f}={v!r}: {len(P.TRACE)} model calls before the error")
+        if raised is not None and "det" in held:
+            # a refused change leaves the long-lived object exactly as it was (the limits "apply": the bad value is not in effect afterwards)
+            now = vars(getattr(held["det"], sec))
+            bad = [k for k in set(now) | set(held["before"]) if k != "_numbytes" and repr(now.get(k)) != repr(held["before"].get(k))]
+            rec.check(not bad, f"refused_value_left_in_object:{f}:{path}",
+                      f"{f}={v!r} via {path} on {typ} was refused ({type(raised).__name__}) but the {sec} now holds {[(k, now.get(k)) for k in bad]}, before {[(k, held['before'].get(k)) for k in bad]}")
 
 
 # ------------------------------------------------------------------ whole documents
